@@ -32,6 +32,8 @@ func init() {
 			"errors of the cache store flow only into the error reporter and the store is never called with the data lock held; both cache keys combine the entity hash with the selection hash taken before the input buffer is rewritten; " +
 			"every Cache-Control field the decision reads is filled by the arm of the directive switch for the RFC 9111 directive of that name. It does not decide transparency over request histories nor the Cache-Control lexer over all strings.",
 		Mutants: []Mutant{
+			{Name: "entities are stored from 3xx responses again (reverts the F77 fix)", File: "v2/pkg/engine/resolve/response_cache.go", Rule: "C16-R2", Key: "status<300",
+				Old: "if res.err != nil || len(res.out) == 0 || res.statusCode >= 300 {", New: "if res.err != nil || len(res.out) == 0 || res.statusCode >= 400 {"},
 			{Name: "cache error callback called without a nil test (seeded change C16-22)", File: respCacheGo, Rule: "C16-R7", Key: "reportResponseCacheError/optional-callback-nil-checked:onError",
 				Old: "\tif l.responseCacheEnabled() && l.ctx.responseCache.onError != nil {\n\t\tl.ctx.responseCache.onError(err)\n\t}\n", New: "\tif !l.responseCacheEnabled() {\n\t\treturn\n\t}\n\tl.ctx.responseCache.onError(err)\n"},
 			{Name: "single-flight follower no longer restores the shared status code (seeded change C16-23)", File: "v2/pkg/engine/resolve/loader.go", Rule: "C16-R8", Key: "follower-mirrors:StatusCode<-item.statusCode",
@@ -50,7 +52,7 @@ func init() {
 			{Name: "responses with GraphQL errors are collected", File: respCacheGo, Rule: "C16-R2", Key: "no-graphql-errors",
 				Old: "\tif errs := response.Get(errorsPath...); astjson.ValueIsNonNull(errs) && len(errs.GetArray()) > 0 {\n\t\treturn nil\n\t}\n", New: "\t_ = errorsPath\n"},
 			{Name: "4xx/5xx responses are collected", File: respCacheGo, Rule: "C16-R2", Key: "status",
-				Old: "if res.err != nil || len(res.out) == 0 || res.statusCode >= 400 {", New: "if res.err != nil || len(res.out) == 0 {"},
+				Old: "if res.err != nil || len(res.out) == 0 || res.statusCode >= 300 {", New: "if res.err != nil || len(res.out) == 0 {"},
 			{Name: "stored TTL is the configured default, not the response's", File: respCacheGo, Rule: "C16-R2", Key: "ttl-source",
 				Old: "\t\t\tTTL:   ttl,\n", New: "\t\t\tTTL:   max(ttl, l.ctx.responseCache.defaultTTL),\n"},
 			{Name: "partial cache hit served", File: respCacheGo, Rule: "C16-R3", Key: "all-found",
@@ -160,7 +162,7 @@ func runC16(r *fw.Run) {
 	}
 
 	// ---- R2 collect guards ---------------------------------------------------------------------
-	r.Rule("C16-R2", "cache items are built only when: cache enabled, keys present, fetch really loaded, no transport error, body present, status < 400, parsed, no GraphQL errors, TTL ok, one value per key; and they carry the TTL returned by caching.TTL")
+	r.Rule("C16-R2", "cache items are built only when: cache enabled, keys present, fetch really loaded, no transport error, body present, status < 300 (a successful response), parsed, no GraphQL errors, TTL ok, one value per key; and they carry the TTL returned by caching.TTL")
 	if fi := p.Func("resolve", "Loader.responseCacheCollect"); fi == nil {
 		r.Error("C16-R2: Loader.responseCacheCollect not found")
 	} else {
@@ -178,12 +180,12 @@ func runC16(r *fw.Run) {
 			fw.GuardSpec{Name: "not-a-cache-hit", Match: pf("False", "responseCacheHit")},
 			fw.GuardSpec{Name: "no-transport-error", Match: rf("Nil", "err")},
 			fw.GuardSpec{Name: "body-present", Match: rf("NonEmpty", "out")},
-			fw.GuardSpec{Name: "status<400", Match: func(info *types.Info, a fw.CondAtom) bool {
+			fw.GuardSpec{Name: "status<300", Match: func(info *types.Info, a fw.CondAtom) bool {
 				if a.Kind != "Lt" || !fw.IsFieldSel(info, a.X, "resolve", "result", "statusCode") {
 					return false
 				}
 				v, ok := fw.ConstVal(info, a.Y)
-				return ok && (v == "400" || v == "300")
+				return ok && v == "300" // "successful" is 2xx: a 3xx the HTTP client does not follow reaches the caller with a body
 			}},
 			fw.GuardSpec{Name: "parsed", Match: fw.AtomVarFromCall(fi, "Nil", "resolve", "result.parsedResponse", 1)},
 			fw.GuardSpec{Name: "no-graphql-errors", Match: func(info *types.Info, a fw.CondAtom) bool {
@@ -214,7 +216,7 @@ func runC16(r *fw.Run) {
 				return mentionsField(info, a.Y, "resolve", "preparedFetch", "responseCacheKeys") || mentionsField(info, a.X, "resolve", "preparedFetch", "responseCacheKeys")
 			}},
 		)
-		all := []string{"cache-enabled", "keys-present", "not-skipped", "not-a-cache-hit", "no-transport-error", "body-present", "status<400", "parsed", "no-graphql-errors", "ttl-ok", "one-value-per-key"}
+		all := []string{"cache-enabled", "keys-present", "not-skipped", "not-a-cache-hit", "no-transport-error", "body-present", "status<300", "parsed", "no-graphql-errors", "ttl-ok", "one-value-per-key"}
 		d := fw.NewDeriver(fi)
 		nSites := 0
 		in := fw.NewInterp(fi)
